@@ -66,7 +66,7 @@ var vfC10Pool2 = vfC10Conf{Gateway: "10.0.0.1", Mask: "255.255.255.0", Start: "1
 // (AdGuard Home v0.107.61-dev, 3a7a121), one per defect.
 var vfC10Scripts = []vfC10Script{{
 	name:      "decline_duplicates_lease",
-	signature: "decline-adds-replacement-lease-twice",
+	signature: vfC10SigDecline,
 	what: "DISCOVER, REQUEST, DECLINE from one client leaves two identical entries of the replacement lease " +
 		"in Leases() and leases.json (handleDecline adds what allocateLease already added); it also stores " +
 		"leases.json before changing the table, so the file keeps the declined lease",
@@ -78,7 +78,7 @@ var vfC10Scripts = []vfC10Script{{
 	},
 }, {
 	name:      "reservation_outside_pool_blocks_first_address",
-	signature: "static-outside-range-marks-offset-zero",
+	signature: vfC10SigOutside,
 	what: "one reservation outside the pool marks pool offset 0 as leased: the first pool address is never " +
 		"offered, the second of two new clients gets nothing from a pool of two",
 	conf: vfC10Pool2,
@@ -90,7 +90,7 @@ var vfC10Scripts = []vfC10Script{{
 	},
 }, {
 	name:      "reservation_on_neighbours_address",
-	signature: "rmdynamiclease-skips-entry-after-removed",
+	signature: vfC10SigSkip,
 	what: "reserving for client 1 the address client 2 holds, when client 2's entry follows client 1's in the " +
 		"table: client 2's lease is not removed (the entry after a removed one is skipped) and the address is " +
 		"leased twice",
@@ -104,7 +104,7 @@ var vfC10Scripts = []vfC10Script{{
 	},
 }, {
 	name:      "reservation_takes_hostname_of_dynamic_lease",
-	signature: "rmdynamiclease-skips-entry-after-removed",
+	signature: vfC10SigSkip,
 	what: "a reservation named like a dynamic lease is rejected as duplicate although the dynamic lease's " +
 		"name was just cleared for it (stale hostname index); the cleared name is not stored",
 	conf: vfC10Pool4,
@@ -115,7 +115,7 @@ var vfC10Scripts = []vfC10Script{{
 	},
 }, {
 	name:      "rejected_reservation_removes_dynamic_lease",
-	signature: "rejected-static-lease-removes-dynamic-leases",
+	signature: vfC10SigRejected,
 	what: "a reservation rejected for its duplicate hostname has already removed the client's acknowledged " +
 		"dynamic lease from memory (not from leases.json)",
 	conf: vfC10Pool4,
@@ -127,7 +127,7 @@ var vfC10Scripts = []vfC10Script{{
 	},
 }, {
 	name:      "unnamed_offer_takes_name_on_load",
-	signature: "load-invents-hostname-that-clashes",
+	signature: vfC10SigLoadName,
 	what: "on load an offered, never acknowledged lease is given the address-derived default name; a lease " +
 		"stored under that name (e.g. carried over by DECLINE) is then dropped as duplicate: an acknowledged " +
 		"lease is lost by a restart",
@@ -139,7 +139,7 @@ var vfC10Scripts = []vfC10Script{{
 	},
 }, {
 	name:      "default_name_given_twice",
-	signature: "load-invents-hostname-that-clashes",
+	signature: vfC10SigLoadName,
 	what: "a client without a hostname is given the default name of its address although a reservation " +
 		"already has that name; the table then holds the name twice and a restart drops one of the leases",
 	conf: vfC10Pool4,
